@@ -306,16 +306,12 @@ func (blockchain *Blockchain) isApplicationHalted(height uint64) bool {
 		}
 	}
 
-	votingResult := new(big.Float).Quo(
-		new(big.Float).SetInt(totalVotedPower),
-		new(big.Float).SetInt(blockchain.totalPower),
-	)
+	return blockchain.isMoreThanTwoThirds(totalVotedPower)
+}
 
-	if votingResult.Cmp(big.NewFloat(votingPowerConsensus)) == 1 {
-		return true
-	}
-
-	return false
+// isMoreThanTwoThirds reports whether votedPower is strictly more than 2/3 of the present voting power (exact arithmetic)
+func (blockchain *Blockchain) isMoreThanTwoThirds(votedPower *big.Int) bool {
+	return new(big.Int).Mul(votedPower, big.NewInt(3)).Cmp(new(big.Int).Mul(blockchain.totalPower, big.NewInt(2))) == 1
 }
 
 // Deprecated
@@ -358,6 +354,7 @@ func (blockchain *Blockchain) isUpdateCommissionsBlockV2(height uint64) []byte {
 	}
 	// calculate total power of validators
 	maxVotingResult := big.NewFloat(0)
+	maxVotedPower := big.NewInt(0)
 
 	var price string
 	for _, commission := range commissions {
@@ -374,10 +371,11 @@ func (blockchain *Blockchain) isUpdateCommissionsBlockV2(height uint64) []byte {
 
 		if maxVotingResult.Cmp(votingResult) == -1 {
 			maxVotingResult = votingResult
+			maxVotedPower = totalVotedPower
 			price = commission.Price
 		}
 	}
-	if maxVotingResult.Cmp(big.NewFloat(votingPowerConsensus)) == 1 {
+	if blockchain.isMoreThanTwoThirds(maxVotedPower) {
 		return []byte(price)
 	}
 
@@ -391,6 +389,7 @@ func (blockchain *Blockchain) isUpdateNetworkBlockV2(height uint64) (string, boo
 	}
 	// calculate total power of validators
 	maxVotingResult := big.NewFloat(0)
+	maxVotedPower := big.NewInt(0)
 	var version string
 	for _, v := range versions {
 		totalVotedPower := big.NewInt(0)
@@ -406,10 +405,11 @@ func (blockchain *Blockchain) isUpdateNetworkBlockV2(height uint64) (string, boo
 
 		if maxVotingResult.Cmp(votingResult) == -1 {
 			maxVotingResult = votingResult
+			maxVotedPower = totalVotedPower
 			version = v.Version
 		}
 	}
-	if maxVotingResult.Cmp(big.NewFloat(votingPowerConsensus)) == 1 {
+	if blockchain.isMoreThanTwoThirds(maxVotedPower) {
 		return version, true
 	}
 
